@@ -133,7 +133,7 @@ def run(tier, seed):
                     "distinct = (program, step shape) pairs, step shape = (result code, step carried events)")
     items, osets = programs(tier, seed)
     stats = dict(accepted=0, rejected=0, capped_pairs=0, option_sets=len(osets), cbuild_failed=0)
-    for idx, r in pmap(check_program, items, timeout=900, chunksize=2, stop=ck.enough):
+    for idx, r in pmap(check_program, items, timeout=900 if tier == "quick" else 5400, chunksize=2, stop=ck.enough):
         if "harness_error" in r or "harness_timeout" in r:
             harness_fail("%s on %s" % (r, items[idx]["label"]))
         it = items[idx]
